@@ -5,6 +5,7 @@ import (
 	"fmt"
 	"net/url"
 	"regexp"
+	"sort"
 	"strings"
 
 	"github.com/trustbloc/sidetree-core-go/pkg/document"
@@ -343,7 +344,7 @@ func c18Docs() []doc.Doc {
 
 func c18(r *hx.Run) {
 	fx.Quiet()
-	r.Rule = "(1) validator: the full product of key-entry variants (12 ids x 9 types x 14 purpose sets x 10 key-material shapes), service variants (9 ids x 6 types x 17 endpoint shapes), list-level variants (duplicates, pairs), replace documents built from them, every patch action disabled in turn, and JSON-patch operation lists over all six RFC 6902 operations x 22 paths x 12 from values x 6 values (thorough: all ordered pairs) are validated by the real ValidateDelta: accepted => the statement's structural predicate; (2) every accepted delta is applied by the real composer to 12 small documents: document or error, never a panic or a hang, and an accepted JSON patch leaves the key and service sections unchanged. Non-trivial: distinct accepted deltas and distinct deltas rejected by a rule."
+	r.Rule = "(1) validator: the full product of key-entry variants (12 ids x 9 types x 14 purpose sets x 10 key-material shapes), service variants (9 ids x 6 types x 17 endpoint shapes), list-level variants (duplicates, pairs; the same id twice for every ordered pair of accepted key / service shapes, adjacent and separated, in add and replace), replace documents built from them, every patch action disabled in turn, and JSON-patch operation lists over all six RFC 6902 operations x 22 paths x 12 from values x 6 values (thorough: all ordered pairs) are validated by the real ValidateDelta: accepted => the statement's structural predicate; (2) every accepted delta is applied by the real composer to 12 small documents: document or error, never a panic or a hang, and an accepted JSON patch leaves the key and service sections unchanged. Non-trivial: distinct accepted deltas and distinct deltas rejected by a rule."
 	ver := fx.NewVersion(fx.DefaultProtocol(), nil)
 	docs := c18Docs()
 	uc := fx.Commit(fx.NewKey(fx.Ed25519, "c18/uc"), fx.SHA256)
@@ -428,6 +429,67 @@ func c18(r *hx.Run) {
 	for i, l := range listLevel {
 		check("add-keys-list", i, map[string]interface{}{"action": "add-public-keys", "publicKeys": l})
 	}
+	// ---- same id twice in one list, for every ordered pair of accepted entry shapes (type x key-material members)
+	var keyReps []map[string]interface{}
+	{
+		seenShape := map[string]bool{}
+		for i, kv := range keyVars {
+			m, ok := kv.(map[string]interface{})
+			if !ok {
+				continue
+			}
+			var members []string
+			for k := range m {
+				if k != "id" && k != "purposes" {
+					members = append(members, k)
+				}
+			}
+			sort.Strings(members)
+			shape := fmt.Sprint(m["type"], members)
+			if seenShape[shape] {
+				continue
+			}
+			single := map[string]interface{}{"action": "add-public-keys", "publicKeys": []interface{}{kv}}
+			if refPatchOK(single) != "" || !validate(fmt.Sprintf("keyrep|%d", i), single) {
+				continue
+			}
+			seenShape[shape] = true
+			keyReps = append(keyReps, m)
+		}
+	}
+	withID := func(m map[string]interface{}, id string) map[string]interface{} {
+		c := map[string]interface{}{}
+		for k, v := range m {
+			c[k] = v
+		}
+		c["id"] = id
+		return c
+	}
+	type pairJob struct {
+		fam string
+		idx int
+		p   map[string]interface{}
+	}
+	var dupJobs []pairJob
+	for i, a := range keyReps {
+		for j, b := range keyReps {
+			same := []interface{}{withID(a, "dup-1"), withID(b, "dup-1")}
+			three := []interface{}{withID(a, "dup-1"), good("other"), withID(b, "dup-1")}
+			diff := []interface{}{withID(a, "dup-1"), withID(b, "dup-2")}
+			n := (i*len(keyReps) + j) * 4
+			dupJobs = append(dupJobs,
+				pairJob{"dup-key-add", n, map[string]interface{}{"action": "add-public-keys", "publicKeys": same}},
+				pairJob{"dup-key-add", n + 1, map[string]interface{}{"action": "add-public-keys", "publicKeys": three}},
+				pairJob{"dup-key-add", n + 2, map[string]interface{}{"action": "add-public-keys", "publicKeys": diff}},
+				pairJob{"dup-key-replace", n, map[string]interface{}{"action": "replace", "document": map[string]interface{}{"publicKeys": same}}},
+				pairJob{"dup-key-replace", n + 1, map[string]interface{}{"action": "replace", "document": map[string]interface{}{"publicKeys": three, "services": []interface{}{fx.ServiceEntry("s1", "https://example.com/1")}}}})
+		}
+	}
+	hx.ParallelFor(len(dupJobs), func(i int) { check(dupJobs[i].fam, dupJobs[i].idx, dupJobs[i].p) })
+	r.Extra["accepted_key_shapes"] = len(keyReps)
+	if len(keyReps) < 8 {
+		panic(fmt.Sprintf("vacuity: only %d accepted key shapes", len(keyReps)))
+	}
 	// ---- every printable ASCII character outside the URL-safe set inside an otherwise valid id
 	for c := 0x20; c < 0x7f; c++ {
 		ch := string(rune(c))
@@ -452,6 +514,41 @@ func c18(r *hx.Run) {
 	gs := func(id string) map[string]interface{} { return fx.ServiceEntry(id, "https://example.com/"+id) }
 	for i, l := range []interface{}{[]interface{}{gs("s1"), gs("s1")}, []interface{}{gs("s1"), gs("s2")}, []interface{}{gs("s1"), 5.0}, []interface{}{}, "x", nil, []interface{}{gs("s1"), map[string]interface{}{}}} {
 		check("add-services-list", i, map[string]interface{}{"action": "add-services", "services": l})
+	}
+	{ // same service id twice, for every ordered pair of accepted service shapes
+		var svcReps []map[string]interface{}
+		seenShape := map[string]bool{}
+		for i, sv := range svcVars {
+			m, ok := sv.(map[string]interface{})
+			if !ok {
+				continue
+			}
+			shape := fmt.Sprintf("%v|%T|%s", m["type"], m["serviceEndpoint"], hx.Trunc(string(mustJSON(m["serviceEndpoint"])), 40))
+			single := map[string]interface{}{"action": "add-services", "services": []interface{}{sv}}
+			if seenShape[shape] || refPatchOK(single) != "" || !validate(fmt.Sprintf("svcrep|%d", i), single) {
+				continue
+			}
+			seenShape[shape] = true
+			svcReps = append(svcReps, m)
+		}
+		var jobs []pairJob
+		for i, a := range svcReps {
+			for j, b := range svcReps {
+				same := []interface{}{withID(a, "dup-1"), withID(b, "dup-1")}
+				three := []interface{}{withID(a, "dup-1"), gs("other"), withID(b, "dup-1")}
+				n := (i*len(svcReps) + j) * 2
+				jobs = append(jobs,
+					pairJob{"dup-svc-add", n, map[string]interface{}{"action": "add-services", "services": same}},
+					pairJob{"dup-svc-add", n + 1, map[string]interface{}{"action": "add-services", "services": three}},
+					pairJob{"dup-svc-replace", n, map[string]interface{}{"action": "replace", "document": map[string]interface{}{"services": same}}},
+					pairJob{"dup-svc-replace", n + 1, map[string]interface{}{"action": "replace", "document": map[string]interface{}{"publicKeys": []interface{}{good("k1")}, "services": three}}})
+			}
+		}
+		hx.ParallelFor(len(jobs), func(i int) { check(jobs[i].fam, jobs[i].idx, jobs[i].p) })
+		r.Extra["accepted_service_shapes"] = len(svcReps)
+		if len(svcReps) < 4 {
+			panic(fmt.Sprintf("vacuity: only %d accepted service shapes", len(svcReps)))
+		}
 	}
 	// ---- replace: reduced variants (every 7th key variant, every 5th service variant) singly and paired with a good entry
 	var rep []map[string]interface{}
